@@ -20,6 +20,10 @@
 (*                       "spin" instrumented infinite loop                 *)
 (*                       "nap"  uninstrumented infinite wait               *)
 (*                       "raise" the SUT raises (ends the test case)       *)
+(*                       "pgate" instrumented code whose tracer callback   *)
+(*                              blocks between check() and the record      *)
+(*                              (a slow user operator evaluated by the     *)
+(*                              callback), released by the environment     *)
 (***************************************************************************)
 EXTENDS Naturals, Sequences, FiniteSets, TLC
 
@@ -32,7 +36,7 @@ CONSTANTS N,                 \* number of test cases executed one after the othe
 None == 0
 T == 1..N
 DesignPrograms == {<<"rec">>, <<"rec", "gate", "rec">>, <<"spin">>, <<"nap">>, <<"rec", "raise">>,
-                   <<"gate", "raise">>}
+                   <<"gate", "raise">>, <<"pgate", "rec">>}
 
 VARIABLES mpc,      \* main: "next" | "joining" | "stopped" | "end"
           mi,       \* index of the test case main is executing (0 before the first)
@@ -59,7 +63,7 @@ Slot(i) == IF TraceIsThreadLocal THEN i ELSE 1
 Alive(i) == tpc[i] \notin {"idle", "done", "dead"}
 Op(i) == IF ip[i] <= Len(prog[i]) THEN prog[i][ip[i]] ELSE "end"
 (* a thread that will make no progress without outside help *)
-Stuck(i) == tpc[i] = "run" /\ ~chk[i] /\ (parked[i] \/ Op(i) = "nap" \/ (Op(i) = "spin" /\ cur = i))
+Stuck(i) == tpc[i] = "run" /\ (parked[i] \/ ~chk[i]) /\ (parked[i] \/ Op(i) = "nap" \/ (Op(i) = "spin" /\ cur = i))
 NonTerminating(p) == \E k \in DOMAIN p : p[k] \in {"spin", "nap"}
 
 Init ==
@@ -140,6 +144,18 @@ Step(i) ==
                  /\ ip' = [ip EXCEPT ![i] = IF Op(i) = "rec" THEN @ + 1 ELSE @]
                  /\ chk' = [chk EXCEPT ![i] = FALSE]
                  /\ UNCHANGED <<mpc, mi, tpc, prog, parked, cur, exc, queue, result, out>>
+       [] Op(i) = "pgate" ->
+            IF ~chk[i]
+            THEN IF CheckOnCallback /\ cur # i
+                 THEN Abort(i)
+                 ELSE /\ chk' = [chk EXCEPT ![i] = TRUE]          \* check() passed ...
+                      /\ parked' = [parked EXCEPT ![i] = TRUE]    \* ... and the callback blocks
+                      /\ UNCHANGED <<mpc, mi, tpc, prog, ip, cur, trace, exc, queue, result, out>>
+            ELSE \* released: the callback records without checking again
+                 /\ trace' = [trace EXCEPT ![Slot(i)] = @ \cup {<<i, ip[i]>>}]
+                 /\ ip' = [ip EXCEPT ![i] = @ + 1]
+                 /\ chk' = [chk EXCEPT ![i] = FALSE]
+                 /\ UNCHANGED <<mpc, mi, tpc, prog, parked, cur, exc, queue, result, out>>
        [] Op(i) = "gate" ->
             IF cur # i THEN Abort(i)             \* check() in _before_statement_execution
             ELSE /\ parked' = [parked EXCEPT ![i] = TRUE]
@@ -156,7 +172,8 @@ Release(i) ==
   /\ tpc[i] = "run" /\ parked[i]
   /\ (Controlled /\ i # mi => (mpc \in {"next", "end"} \/ Stuck(mi) \/ ~Alive(mi)))
   /\ parked' = [parked EXCEPT ![i] = FALSE]
-  /\ IF cur # i THEN tpc' = [tpc EXCEPT ![i] = "unwind"] /\ UNCHANGED ip
+  /\ IF chk[i] THEN UNCHANGED <<ip, tpc>>          \* blocked inside a callback: it just continues
+     ELSE IF cur # i THEN tpc' = [tpc EXCEPT ![i] = "unwind"] /\ UNCHANGED ip
      ELSE ip' = [ip EXCEPT ![i] = @ + 1] /\ UNCHANGED tpc
   /\ UNCHANGED <<mpc, mi, prog, cur, trace, exc, queue, result, out, chk>>
 
@@ -219,7 +236,7 @@ ResultIsOwnTrace ==
 (* a test case whose program terminates by itself is not reported as a timeout *)
 NoSpuriousTimeout ==
   \A j \in T : (~result[j].none /\ result[j].timeout) =>
-     \E k \in DOMAIN prog[j] : prog[j][k] \in {"spin", "nap", "gate"}
+     \E k \in DOMAIN prog[j] : prog[j][k] \in {"spin", "nap", "gate", "pgate"}
 (* output streams are the original ones whenever main is between test cases and no thread lives *)
 OutputRestored == (mpc \in {"next", "end"} /\ \A i \in T : ~Alive(i)) => out = 0
 =============================================================================
